@@ -377,7 +377,7 @@ def corpus_cases(runner):
 
 def run(ctx):
     ctx.assumptions += [
-        "language: the core instruction set of vlib/xsltgen.py (template rules with match/name/mode/priority + built-in rules, apply-templates with select/mode/sort/with-param, call-template, for-each, value-of, copy, copy-of, element, attribute, text, comment, processing-instruction, if, choose, variable/param/with-param incl. result tree fragments, literal result elements with AVTs, xsl:number value=, key(), import/include precedence); attribute-set, strip-space, namespace-alias, exclude-result-prefixes beyond the fixed header, document(), xsl:output, messages, format-number, apply-imports are not generated (strip-space: C13, namespaces: C14, keys: C15, sort: C16, number: C17, serialization: C04/C08)",
+        "language: the core instruction set of vlib/xsltgen.py (template rules with match/name/mode/priority + built-in rules, apply-templates with select/mode/sort/with-param, call-template, for-each, value-of, copy, copy-of, element, attribute, text, comment, processing-instruction, if, choose, variable/param/with-param incl. result tree fragments, literal result elements with AVTs, xsl:number value=, key(), import/include precedence, attribute sets); strip-space, namespace-alias, exclude-result-prefixes beyond the fixed header, document(), xsl:output, messages, format-number, apply-imports are not generated (strip-space: C13, namespaces: C14, keys: C15, sort: C16, number: C17, serialization: C04/C08)",
         "result trees are compared on expanded names, attributes, text, comments, PIs in order; namespace nodes not used by a name are not compared (C14); text sort keys are restricted to element names and numeric keys to NaN-free counts (collation and NaN order are implementation-defined)",
         "recoverable errors for which XSLT 1.0 names the recovery (attribute after children / outside an element: ignored) are generated and must be recovered that way, since the library does not signal them",
         "the Coq models cover the two mechanisms, not the whole interpreter: XPath evaluation (C02/C11), pattern matching (C09), conflict resolution (C10) enter the oracle through vlib/xpref.py and vlib/xsltref.py only",
